@@ -240,6 +240,21 @@ func (dec *Decoder) readUint32() (r uint32, err error) {
 	return
 }
 
+// ErrInvalidInfinityEncoding is returned when the infinity flag comes with a non-zero payload
+var ErrInvalidInfinityEncoding = errors.New("invalid infinity point encoding")
+
+func isZeroed(firstByte byte, buf []byte) bool {
+	if firstByte != 0 {
+		return false
+	}
+	for _, b := range buf {
+		if b != 0 {
+			return false
+		}
+	}
+	return true
+}
+
 func isCompressed(msb byte) bool {
 	mData := msb & mMask
 	return !(mData == mUncompressed)
@@ -577,8 +592,11 @@ func (p *G1Affine) setBytes(buf []byte, subGroupCheck bool) (int, error) {
 		}
 	}
 
-	// if infinity is encoded in the metadata, we don't need to read the buffer
+	// infinity encoded, we still check that the buffer is full of zeroes.
 	if mData == mCompressedInfinity {
+		if !isZeroed(buf[0] & ^mMask, buf[1:SizeOfG1AffineCompressed]) {
+			return 0, ErrInvalidInfinityEncoding
+		}
 		p.X.SetZero()
 		p.Y.SetZero()
 		return SizeOfG1AffineCompressed, nil
@@ -597,6 +615,10 @@ func (p *G1Affine) setBytes(buf []byte, subGroupCheck bool) (int, error) {
 		// subgroup check
 		if subGroupCheck && !p.IsInSubGroup() {
 			return 0, errors.New("invalid point: subgroup check failed")
+		}
+		// without the subgroup check the coordinates must still denote a point of the curve
+		if !subGroupCheck && !p.IsOnCurve() {
+			return 0, errors.New("invalid point: not on curve")
 		}
 
 		return SizeOfG1AffineUncompressed, nil
@@ -700,9 +722,12 @@ func (p *G1Affine) unsafeSetCompressedBytes(buf []byte) (isInfinity bool, err er
 	mData := buf[0] & mMask
 
 	if mData == mCompressedInfinity {
+		isInfinity = true
+		if !isZeroed(buf[0] & ^mMask, buf[1:SizeOfG1AffineCompressed]) {
+			return isInfinity, ErrInvalidInfinityEncoding
+		}
 		p.X.SetZero()
 		p.Y.SetZero()
-		isInfinity = true
 		return isInfinity, nil
 	}
 
